@@ -25,7 +25,13 @@ import random
 from datetime import datetime
 
 from more_itertools import gray_product
-from predicate.constructor.construct import construct, create_mutations, initial_predicates
+from predicate.constructor import construct as _cmod
+from predicate.constructor.construct import construct
+
+# internal helpers: tied when they exist with the shape they have today; the property is about construct() alone, so a
+# refactor that renames or re-shapes them only drops the sub-tie (recorded in the evidence), it is not a failure
+create_mutations = getattr(_cmod, "create_mutations", None)
+initial_predicates = getattr(_cmod, "initial_predicates", None)
 
 from .. import budget, driver, lift, sx as S
 from ..core import Check, HarnessError
@@ -148,7 +154,18 @@ def parse_answer(line):
     return out
 
 
-INIT = list(initial_predicates())
+def _initial():
+    if initial_predicates is not None:
+        try:
+            return list(initial_predicates())
+        except Exception:  # noqa: BLE001
+            pass
+    import predicate as P
+
+    return [P.always_false_p, P.always_true_p, P.is_bool_p, P.is_datetime_p, P.is_dict_p, P.is_falsy_p, P.is_float_p, P.is_int_p, P.is_list_p, P.is_none_p, P.is_not_none_p, P.is_set_p, P.is_str_p, P.is_truthy_p]
+
+
+INIT = _initial()
 
 
 def check_pair(chk, fi, ti, limit, depth, events, model, stats):
@@ -221,6 +238,59 @@ def check_pair(chk, fi, ti, limit, depth, events, model, stats):
     if items and (fi or ti):
         chk.nontrivial.add((fi, ti))
     return inp, items, status, problems, dis
+
+
+def interleaved(chk, rng, tier, pairs, answers, limit, stats):
+    """Several construct() streams alive at once, advanced in turn: each must still be the stream of its own pair
+    (the property speaks of every position of the stream for any two example sets; it does not allow one call to
+    disturb another)."""
+    n_groups = 60 if tier == "quick" else 400
+    lim = min(limit, 12)
+    cand = [(p, a) for p, a in zip(pairs, answers) if a]
+    other = [(p, a) for p, a in zip(pairs, answers) if not a and (p[0] or p[1])]
+    dis, n_streams = [], 0
+    for g in range(n_groups):
+        if len(cand) < 2:
+            break
+        grp = rng.sample(cand, 2) + ([rng.choice(other)] if other and g % 3 == 0 else []) + ([rng.choice(cand)] if g % 4 == 0 else [])
+        rng.shuffle(grp)
+        sets = [(mk(fi), mk(ti)) for (fi, ti), _ in grp]
+        its, items, alive = [], [[] for _ in grp], [True] * len(grp)
+        for F, T in sets:
+            try:
+                it, _ = budget.limited(lambda F=F, T=T: construct(F, T), EVENTS_SHALLOW)
+            except Exception as e:  # noqa: BLE001
+                it = None
+            its.append(it)
+        for _ in range(lim):
+            for k, it in enumerate(its):
+                if it is None or not alive[k] or len(items[k]) >= len(grp[k][1]):
+                    continue  # never pull past what rounds 0-1 hold (round 2 is far too long for a shallow budget)
+                try:
+                    v, _ = budget.limited(lambda it=it: next(it), EVENTS_SHALLOW)
+                    items[k].append(v)
+                except Exception as e:  # noqa: BLE001  (StopIteration, Starved, anything)
+                    alive[k] = False
+                    items[k].append(f"<{type(e).__name__}>")
+        for k, ((fi, ti), model) in enumerate(grp):
+            n_streams += 1
+            inp = {"interleaved_with": [{"F": names(f), "T": names(t)} for (f, t), _ in grp], "stream": k, "F": names(fi), "T": names(ti), "per_stream_limit": lim}
+            got = [x if isinstance(x, str) else S.show(lift.lift(x)) for x in items[k]]
+            Fc, Tc = mk(fi), mk(ti)
+            for pos, p in enumerate(items[k]):
+                if isinstance(p, str):
+                    continue
+                bad_t = [POOL[i][0] for i, x in zip(ti, Tc) if call(p, x) is not True]
+                bad_f = [POOL[i][0] for i, x in zip(fi, Fc) if call(p, x) is not False]
+                chk.evaluations += len(Tc) + len(Fc)
+                if bad_t or bad_f:
+                    chk.add_failure(inp, {"what": "a predicate yielded while another construct() stream was being read does not separate", "position": pos, "predicate": repr(p), "not_true_on": bad_t, "not_false_on": bad_f}, None)
+                    break
+            if got != model[: len(got)]:
+                dis.append({"input": inp, "model": model[:8], "implementation": got[:8], "what": "interleaved stream differs from the stream of the same pair read alone"})
+    chk.add_corr("construct/interleaved-streams", n_streams, dis, note=f"groups of 2-4 generators advanced round-robin, {lim} yields each")
+    stats["interleaved_streams"] = n_streams
+    return dis
 
 
 def corr_mutations(chk, rng, tier):
@@ -338,10 +408,18 @@ def main(tier):
         chk.extra["deep_status"] = deep_status
     chk.add_corr("construct/round-2-prefix", len(deep), ddis, note=f"budget {EVENTS_DEEP} events per next")
 
-    mdis = corr_mutations(chk, rng, tier)
+    try:
+        if create_mutations is None or initial_predicates is None:
+            raise AttributeError("construct.py has no create_mutations / initial_predicates")
+        mdis = corr_mutations(chk, rng, tier)
+    except (AttributeError, TypeError, budget.Starved) as e:
+        # the helper is gone or does not accept plain candidate lists any more: internal re-shaping, not judged
+        mdis = []
+        chk.extra["mutations_tie_skipped"] = f"{type(e).__name__}: {e}"[:300]
+    idis = interleaved(chk, rng, tier, pairs, answers, limit, stats)
 
     # a disagreement between model and code is reported with its input so that it can be replayed
-    for d in (dis + ddis + mdis)[:20]:
+    for d in (dis + ddis + mdis + idis)[:20]:
         chk.add_failure(d.get("input"), {"what": "model and implementation disagree", **{k: v for k, v in d.items() if k != "input"}}, None)
 
     chk.extra.update(
